@@ -1504,21 +1504,30 @@ func (p *Program) c11ErrNilOrNotRun(fs []Fact, k *ssa.Call) bool {
 		if !ok || f.Pol == trueMeansNonNil {
 			continue
 		}
-		has, only := false, true
-		for _, pv := range p.possibleValues(x) {
-			switch {
-			case stripConv(pv) == e0:
-				has = true
-			case isNilConst(pv):
-			default:
-				only = false
-			}
-		}
-		if has && only {
+		if p.c11OnlyErrOf(x, k) {
 			return true
 		}
 	}
 	return false
+}
+
+// c11OnlyErrOf: x can only be nil or the error result of call k.
+func (p *Program) c11OnlyErrOf(x ssa.Value, k *ssa.Call) bool {
+	e0 := pfExtract(k, 1)
+	if e0 == nil {
+		return false
+	}
+	has, only := false, true
+	for _, pv := range p.possibleValues(x) {
+		switch {
+		case stripConv(pv) == e0:
+			has = true
+		case isNilConst(pv):
+		default:
+			only = false
+		}
+	}
+	return has && only
 }
 
 func pfIsReconcileRequest(t types.Type) bool {
@@ -1680,11 +1689,13 @@ func c11r6(c *Ctx) {
 				var problems []string
 				nret := 0
 				for _, in := range reachableAfter(k, nil) {
-					r, isRet := in.(*ssa.Return)
-					if !isRet {
-						continue
+					if _, isRet := in.(*ssa.Return); isRet {
+						nret++
 					}
-					nret++
+				}
+				// only returns that can be reached while the error may still be non-nil matter:
+				// paths that pass a successful nil test of the error are not followed
+				for _, r := range p.returnsReachedWithErr(k, func(x ssa.Value) bool { return p.c11OnlyErrOf(x, k) }) {
 					fs := p.FactsAt(r.Block())
 					if p.c11ErrNilOrNotRun(fs, k) {
 						continue
